@@ -8,6 +8,8 @@
 #include <fcppt/parse/basic_char_set.hpp>
 #include <fcppt/parse/basic_literal.hpp>
 #include <fcppt/parse/basic_stream_impl.hpp>
+#include <fcppt/parse/basic_string.hpp>
+#include <fcppt/parse/operators/alternative.hpp>
 #include <fcppt/parse/error_impl.hpp>
 #include <fcppt/parse/location.hpp>
 #include <fcppt/parse/phrase_parse.hpp>
@@ -480,6 +482,41 @@ void failing_streams()
         else
           VF_COUNT("stream/failing/plain-eof");
       }
+      // once the stream went bad, a rewind must not revive it: no character may be produced after set_position(saved)
+      if (mode == 1 && limit < text.size())
+      {
+        fault_buf<Ch> buf(text, limit, mode);
+        std::basic_istream<Ch> is(&buf);
+        fcppt::parse::detail::stream<Ch> st{fcppt::reference_to_base<std::basic_istream<Ch>>(fcppt::make_ref(is))};
+        bool revived = false;
+        try
+        {
+          auto saved = st.get_position();
+          for (std::size_t k = 0; k <= limit; ++k)
+            (void)st.get_char(); // the last read hits the fault
+        if (is.bad())
+          {
+            VF_COUNT("stream/failing/rewind-after-bad");
+            st.set_position(saved);
+            auto c = st.get_char();
+            revived = c.has_value();
+          }
+        }
+        catch (fcppt::parse::detail::exception<Ch> const &)
+        {
+        }
+        if (revived)
+          vf::violation(e + "/character-after-rewind-of-bad-stream", "mismatch",
+                        "limit=" + std::to_string(limit) + ": after the device failed, set_position(saved) + get_char produced a character");
+        // the same through a backtracking grammar: ("abc" | "ab") needs to rewind after the fault
+        fault_buf<Ch> buf2(text, limit, mode);
+        std::basic_istream<Ch> is2(&buf2);
+        auto grammar = fcppt::parse::basic_string<Ch>{Str{Ch('a'), Ch('b'), Ch('\n')}} | fcppt::parse::basic_string<Ch>{Str{Ch('a')}};
+        auto r = fcppt::parse::phrase_parse_stream(grammar, is2, fcppt::parse::skipper::epsilon{});
+        if (limit >= 1 && limit < 3 && r.has_success())
+          vf::violation(e + "/backtracking-over-bad-stream-succeeded", "mismatch",
+                        "limit=" + std::to_string(limit) + ": (\"ab\\n\" | \"a\") succeeded although the device failed inside the first alternative");
+      }
       // through the public entry point: a parser needing all characters must FAIL (never succeed on a failing stream)
       {
         fault_buf<Ch> buf(text, limit, mode);
@@ -502,7 +539,7 @@ void body()
                         "stream/rewind-across-newline", "stream/restore-directly-after-eof-read", "stream/double-restore",
                         "stream/interleavings", "stream/messages-checked", "stream/messages-at-eof",
                         "stream/file-interleavings", "stream/failing/bad-stream-reported", "stream/failing/plain-eof",
-                        "stream/failing/entry-point-runs"})
+                        "stream/failing/entry-point-runs", "stream/failing/rewind-after-bad"})
     vf::require_bucket(b);
   exhaustive<char>(vf::tier<unsigned>(7, 10));
   exhaustive<wchar_t>(vf::tier<unsigned>(6, 9));
